@@ -26,7 +26,8 @@ let mk_header v p m t d n =
 let show_blist = show_list show_bytes
 let show_block_result stream_tx (b, rest) =
   "(" ^ show_header b.b_header ^ " " ^ show_blist (List.map (fun t -> t.d_txid) b.b_txs) ^ " " ^
-  "i" ^ Printf.sprintf "%x" (List.length rest) ^ " " ^ show_outcome show_bytes (block_stream stream_tx b) ^ ")"
+  "i" ^ Printf.sprintf "%x" (List.length rest) ^ " " ^ show_outcome show_bytes (block_stream stream_tx b) ^ " " ^
+  show_outcome show_bytes (block_id dsha b.b_header) ^ ")"
 
 let dispatch f args = match f, args with
   | "merkle", [hs] -> show_outcome show_bytes (merkle dsha (arg_list arg_bytes hs))
